@@ -527,7 +527,7 @@ def to_model(data_file: typing.IO, _config = None, progress_callback=lambda _: N
     if state in (_State.TEXT, _State.TEXT_MORE):
 
       if line is None or _EMPTY_RE.fullmatch(line):
-        subtitle_text = subtitle_text.strip('\r\n').replace(r"\n\r", "\n")
+        subtitle_text = subtitle_text.strip('\r\n').replace("\r\n", "\n")
 
         _parse_cue_text(subtitle_text, current_p, line_index)
 
